@@ -25,7 +25,9 @@ condition), and it should need something SPECIFIC to manifest - a particular int
 point, a multi-step sequence of operations, an unusual input, or two cooperating sites that each look fine alone - not something ordinary use
 would expose at once. Do not just delete a feature or raise an exception unconditionally.
 
-HOUSEKEEPING: never use `pkill -f`, `killall` or similar pattern kills (other sessions run python/pytest on this machine) - kill only PIDs you
+HOUSEKEEPING: NEVER use `git stash` (the stash is shared by every worktree of this repository and other agents work concurrently; pops land in the
+wrong worktree). To switch between the unchanged and the changed tree use `git diff -- redun > {wt}/my.patch; git checkout -- redun; ...;
+git apply {wt}/my.patch`. Never use `pkill -f`, `killall` or similar pattern kills (other sessions run python/pytest on this machine) - kill only PIDs you
 started. Run the whole test suite only if `uptime` shows a load average below 8; otherwise the relevant test files are enough. Delete stray files
 your test runs leave behind (e.g. {wt}/workflow.py, temporary directories you created under /tmp).
 
